@@ -63,7 +63,7 @@ theorem macro_yields_applicable_binding (fuel : Nat) (st : State) (σ : Scope) (
   simp only [hC]
   have hP : pyBind macroEntry.cfg.sig { args := [], kwargs := [("value", v)] } =
       .ok { params := [("value", v)], extra := [], kw := [] } := by
-    simp [pyBind, bindKwargs, macroEntry, Sig.args, Sig.kwonlyNames, AList.contains, AList.set, AList.lookup]
+    simp [pyBind, bindKwargs, macroEntry, Sig.args, Sig.kwNames, Sig.kwonlyNames, AList.contains, AList.set, AList.lookup]
   simp only [hP]
   simp [AList.lookup]
 
